@@ -134,7 +134,7 @@ func genForProgram(r *rand.Rand) prog {
 	g := &forGen{r: r, equs: map[string]int{}}
 	var items []item
 	// EQUs defined before use (the single-pass scanner requires it)
-	for i := r.Intn(3); i > 0; i-- {
+	for i := r.Intn(4); i > 0; i-- {
 		n := fmt.Sprintf("k%d", len(g.equs))
 		v := r.Intn(5)
 		g.equs[n] = v
@@ -142,6 +142,13 @@ func genForProgram(r *rand.Rand) prog {
 		if r.Intn(2) == 0 {
 			a := r.Intn(v + 1)
 			toks = []tok{num(a), op("+"), num(v - a)}
+		}
+		if len(g.equs) > 1 && r.Intn(2) == 0 {
+			// an EQU defined through another EQU
+			prev := fmt.Sprintf("k%d", len(g.equs)-2)
+			d := r.Intn(3)
+			toks = []tok{sym(prev), op("+"), num(d)}
+			g.equs[n] = g.equs[prev] + d
 		}
 		items = append(items, item{T: "equ", Names: []string{n}, Toks: toks})
 	}
@@ -155,6 +162,12 @@ func genForProgram(r *rand.Rand) prog {
 			toks := []tok{num(v)}
 			if r.Intn(2) == 0 {
 				toks = []tok{num(v + 2), op("-"), num(2)}
+			}
+			if len(g.equs) > 1 && r.Intn(2) == 0 {
+				prev := fmt.Sprintf("k%d", len(g.equs)-2)
+				d := r.Intn(3)
+				toks = []tok{sym(prev), op("+"), num(d)}
+				g.equs[n] = g.equs[prev] + d
 			}
 			items = append(items, item{T: "equ", Names: []string{n}, Toks: toks})
 		}
